@@ -309,8 +309,10 @@ package mqtt
 //@        evIndex("(*BaseClient).connStateUpdate", 0) < evIndex("close", 0)
 //@   ensures[C06,C16] err_stored: evCount("(*BaseClient).SetErrorOnce") == ite(guardVal(&c.connState) != StateDisconnected, 1, 0) &&
 //@        (evCount("(*BaseClient).SetErrorOnce") == 1 ==> evArg[error]("(*BaseClient).SetErrorOnce", 0, 1) != nil &&
+//@             evArg[error]("(*BaseClient).SetErrorOnce", 0, 1) == evRet[error]("(*BaseClient).serve", 0, 0) && evArg[*BaseClient]("(*BaseClient).SetErrorOnce", 0, 0) == c &&
 //@             evIndex("Transport.Close", 0) < evIndex("(*BaseClient).SetErrorOnce", 0) && evIndex("(*BaseClient).SetErrorOnce", 0) < evIndex("(*BaseClient).connStateUpdate", 0))
 //@   ensures[C11,C16] done_closed: closed(c.connClosed)
+//@   ensures[C16] own_client: evArg[*BaseClient]("(*BaseClient).serve", 0, 0) == c && evArg[*BaseClient]("(*BaseClient).connStateUpdate", 0, 0) == c
 
 //@ func (*BaseClient).Disconnect
 //@   mode int
